@@ -253,6 +253,34 @@ pub fn run(tier: &str) -> Result<Report, String> {
         }
         parts.push(json!({"part": "long batches (tied heights, three orders) through four multi entry points", "batches": n_long}));
     }
+    // 1f. two-step histories on one fresh OS thread: look-alike graphs (same symbolic encoding with other update functions;
+    //     the same network with another unit set) evaluated one after the other; the second against the oracle
+    {
+        let units: Vec<_> = nets.iter().filter(|b| ["imp1", "con2"].contains(&b.name.as_str())).cloned().collect();
+        let fam = crate::history::family(tier, 3, &units);
+        crate::history::run(&mut rep, &fam, crate::history::WARM_PLAIN, crate::history::PROBE_PLAIN, Checks { semantic: true, unit: true, entries: Entries::Plain4 }, 0)?;
+        parts.push(json!({"part": "two-step histories (warm-up on a look-alike graph, then probes against the oracle, one fresh OS thread per ordered pair)", "family": fam.describe, "warm": crate::history::WARM_PLAIN.len(), "probes": crate::history::PROBE_PLAIN.len()}));
+    }
+    // 1g. graphs whose context gives different numbers of spare variables to different network variables
+    {
+        let mut n_non = 0u64;
+        for b in nets.iter().filter(|b| b.n >= 2 && (!quick || ["con2", "asy2", "cyc3"].contains(&b.name.as_str()))) {
+            let ctx = NetCtx::new(b.clone(), Labels::default(), "none");
+            let mut fs = Gen::new(Alphabet::plain(ctx.nprops(), 2)).closed_up_to(if quick { 3 } else { 4 });
+            fs.extend(templates(&ctx.user, false, if quick { 2 } else { 6 }));
+            let texts: Vec<String> = fs.iter().map(|f| f.show(&ctx.user)).collect();
+            let depth = |t: &str| crate::refparser::parse_str(t, false).map(|x| x.qdepth()).unwrap_or(99);
+            n_non += texts.len() as u64;
+            for w in nonuniform_check(b, &texts, &depth) {
+                if w.starts_with("harness:") {
+                    return Err(w);
+                }
+                rep.violations.push(crate::report::Violation { case: json!({"kind": "none"}), what: format!("on {}: {w}", b.name), size: 30 });
+            }
+        }
+        rep.evaluations += n_non * 4;
+        parts.push(json!({"part": "graphs with per-variable spare counts (raw and sanitised results equal those of the uniform graph, which is held against the oracle)", "formulae_x_networks": n_non}));
+    }
     // 2. all 2-variable networks of the grammar
     let (all2, info) = all2_nets(3, if quick { Some(1) } else { None })?;
     rep.set("all_2_variable_networks", info);
